@@ -805,7 +805,23 @@ def ssh_msg(name, *a):
 def ssh_msg_dec(ctx, h):
     """parse through the message variant of the context and show the fields in the layout language of the specification"""
     from cryptoparser.ssh import subprotocol as sp
-    obj, n = _ssh_variant(ctx).parse_immutable(bytes.fromhex(h))
+    data = bytes.fromhex(h)
+    obj, n = _ssh_variant(ctx).parse_immutable(data)
+    # the same message inside an RFC 4253 binary packet (padding to a multiple of 8, at least 4 octets), through the record class of
+    # the key-exchange context: it must come back as the same message
+    from cryptoparser.ssh import record as sr
+    from harness import rt
+    payload = data[:n]
+    pad = 8 - (5 + len(payload)) % 8
+    pad += 8 if pad < 4 else 0
+    packet = (1 + len(payload) + pad).to_bytes(4, 'big') + bytes([pad]) + payload + bytes(pad)
+    rec_cls = {'init': sr.SshRecordInit, 'kexdh': sr.SshRecordKexDH, 'gex': sr.SshRecordKexDHGroup}[ctx]
+    try:
+        rec = rec_cls.parse_exact_size(packet)
+    except Exception as e:  # pylint: disable=broad-except
+        raise RoundTripError('the message is refused inside a binary packet of its context: %s' % type(e).__name__)
+    if not rt.same(rec.packet, obj):
+        raise RoundTripError('the message comes back as another one from a binary packet of its context')
     code = int(obj.get_message_code())
     if isinstance(obj, sp.SshDisconnectMessage):
         fs = ['U%d' % int(obj.reason), 'S' + obj.description.encode('utf-8').hex(), 'S' + str(obj.language).encode('ascii').hex()]
